@@ -13,17 +13,19 @@ def main():
     n_eval = 0; skipped = 0; worst = {}; dist = {}; seen = set()
     for n, ty, cfg, p in rows:
         if p[0] != 'L': continue
-        eps = eps_of(ty); strat, enc, fam = p[1], p[2], int(p[3]); r, g, na = [float(x) for x in p[5:8]]; st, pok = int(p[8]), int(p[9]); rr = float(p[10])
+        eps = eps_of(ty); strat, enc, fam = p[1], p[2], int(p[3]); r, g, na = [float(x) for x in p[5:8]]; st, pok = int(p[8]), int(p[9]); rr = float(p[10]); refg = float(p[11])
         n_eval += 1; dist[strat + '/' + enc] = dist.get(strat + '/' + enc, 0) + 1
         k = (strat, enc, n, ty, cfg.name)
-        if not (g == g and g < 1e290) or g > GROWTH_MAX * max(na, 1e-300): skipped += 1; continue        # zero pivot / measured growth | |L||U| | / |A| too large: the strategy is not defined on this matrix; counted, not judged
+        # the domain of the strategy is judged on an independent long-double elimination of the (pre-pivoted) matrix, not on the library's own factors
+        if not (refg == refg) or refg > GROWTH_MAX: skipped += 1; continue        # zero pivot / growth too large: the strategy is not defined on this matrix; counted, not judged
+        if not (g == g and g < 1e290): g = 1e300
         if st or not pok:
             if ('s',) + k not in seen:
                 seen.add(('s',) + k)
                 rep.violation('lu<%s> (%s permutation) of a %s %dx%d %s matrix (seed %s) under %s: %d structural errors (L not unit lower with exact zeros above / U not upper with exact zeros below), permutation %s' % (strat, enc, FAMN[fam], n, n, ty, p[4], cfg.name, st, 'ok' if pok else 'NOT a bijection'),
                               replay_of(11, n, ty, cfg, p), key='structure:%s:%s:%d:%s:%s' % (strat, enc, n, ty, cfg.name))
             continue
-        bound = CB * n * eps * max(g, 1e-300); worst[strat] = max(worst.get(strat, 0.0), max(r, rr) / (n * eps * max(g, 1e-300)))
+        bound = CB * n * eps * max(min(g, refg * max(na, 1e-300) * 4), 1e-300); worst[strat] = max(worst.get(strat, 0.0), max(r, rr) / (n * eps * max(g, 1e-300)))
         if not (r <= bound and rr <= bound) and ('r',) + k not in seen:
             seen.add(('r',) + k)
             rep.violation('lu<%s> (%s permutation) of a %s %dx%d %s matrix (seed %s) under %s: |L*U-P*A| = %.3g, |reconstruct-A| = %.3g exceed 16*n*eps*||L||U|| = %.3g' % (strat, enc, FAMN[fam], n, n, ty, p[4], cfg.name, r, rr, bound),
